@@ -14,6 +14,8 @@ def gen(ctx, per):
         for i in range(per):
             got = runs.generate(ctx, solver, 1, ks=KS[(i + len(cs)) % len(KS)])
             cs += got
+        if per >= 4:
+            cs += runs.directed(ctx, solver, per <= 4)
     return cs
 
 
